@@ -1,7 +1,13 @@
-(** The deterministic reading of a constraint tree (C10): at the root only the
-    first satisfied child (in the order of the child list) is followed — what the
-    automaton does with a state that was made deterministic; below the root every
-    satisfied edge is followed. *)
+(** A stronger reading of a constraint tree than the one C10 states: at the root
+    only the first satisfied child (in the order of the child list) is followed;
+    below the root every satisfied edge is followed.  (The traversal of a
+    deterministic state follows every satisfied transition and only makes the
+    fallback transition conditional, so C10 itself needs [faithful] only.  The
+    stronger reading holds of the shipped trees because the children of their
+    roots are mutually exclusive, or — powerset trees — because the subtree of the
+    first satisfied child repeats the later ones; exclusivity at a deterministic
+    state is what keeps the copies of the fallback state's successors from being
+    reached through two transitions at once.) *)
 From PM Require Import Model.Prelude Model.CTree Spec.TreeSem.
 
 Section TreeDet.
